@@ -509,7 +509,16 @@ func one(c *vfw.Ctx, t *testing.T, cf cfg, h []string) {
 		c.Violate("goroutine-leak-wedge", "library goroutines alive after Close, history "+strings.Join(h, ",")+":\n"+trunc(stacks, 1500), replayCase{cf, h})
 		c.Abort("goroutine leak wedged the bubble")
 	}
+	e2.OnWedge = func(stacks string) {
+		c.Violate("wedged-execution", "the execution made no progress for "+e2.WedgeAfter.String()+" of real time (an API call can never return), history "+strings.Join(h, ",")+fmt.Sprintf(" [active=%v]", cf.Active)+"\n"+trunc(stacks, 3000), replayCase{cf, h})
+		c.Abort("wedged execution")
+	}
+	e2.OnDeadlock = func(report string) {
+		c.Violate("deadlock", "every goroutine is blocked forever while an API call is still outstanding, history "+strings.Join(h, ",")+fmt.Sprintf(" [active=%v]", cf.Active)+"\n"+trunc(report, 3000), replayCase{cf, h})
+		c.Abort("deadlocked execution")
+	}
 	f := run(t, cf, h, onLeak)
+	e2.OnWedge, e2.OnDeadlock = nil, nil
 	c.Case(true)
 	c.Graph(0, 0, 1)
 	if f != nil {
